@@ -263,6 +263,9 @@ func (w *svcWorld) settle(maxRounds int) (bool, string, string) {
 				}
 			}
 		}
+		if sig, _ := w.entriesCompleted(); sig != "" {
+			done = false // somebody's entry has become legal meanwhile: it gets further rounds
+		}
 		if done {
 			return true, "", ""
 		}
@@ -478,4 +481,32 @@ func keysSorted(m map[string][]*bed.DT) []string {
 	}
 	sort.Strings(ks)
 	return ks
+}
+
+// entriesCompleted: after fault-free settling, every datatype a client has opened whose entry
+// is legal NOW must have completed it: subscribe / subscribe-or-create on a key that exists
+// (the scenario's keys have one type each), create / subscribe-or-create on a key nobody has.
+// A client that silently stops asking is invisible to the comparisons of subscribed clients.
+func (w *svcWorld) entriesCompleted() (string, string) {
+	for _, cl := range w.cls {
+		for _, d := range cl.DTs {
+			if d.DT.GetState() == model.StateOfDatatype_SUBSCRIBED {
+				continue
+			}
+			dd := w.b.Datatype(w.colNum, d.Key)
+			legal := false
+			switch d.Mode {
+			case bed.Subscribe:
+				legal = dd != nil && dd.Type == typeOf[d.Typ].String()
+			case bed.SubscribeOrCreate:
+				legal = dd == nil || dd.Type == typeOf[d.Typ].String()
+			case bed.Create:
+				legal = dd == nil
+			}
+			if legal {
+				return "entry-never-completed", fmt.Sprintf("%s opened %s %q with %s; the entry is legal in the final state of the server (datatype stored: %v) but after the fault-free rounds of syncing the datatype is still in state %v", cl.Alias, d.Typ, d.Key, d.Mode, dd != nil, d.DT.GetState())
+			}
+		}
+	}
+	return "", ""
 }
